@@ -396,3 +396,191 @@ verus! {
 /// total length (texts + one separator each) of what an iterator still yields
 pub uninterp spec fn view_texts_len<T>(t: &T) -> nat;
 } // verus!
+verus! {
+// ---- C09: what the exact text means: segments of the rendering, idempotence ----
+
+/// a normalized sequence: no ".", and ".." only as a leading run of a relative path
+pub open spec fn is_normal(n: Seq<Seq<u8>>, rel: bool) -> bool {
+    forall|i: int| 0 <= i < n.len() ==> !is_dot(#[trigger] n[i]) && (is_dotdot(n[i]) ==> rel && (i == 0 || is_dotdot(n[i - 1])))
+}
+pub proof fn lemma_norm_step_normal(st: Seq<Seq<u8>>, s: Seq<u8>, rel: bool)
+    requires is_normal(st, rel),
+    ensures is_normal(norm_step(st, s, rel), rel),
+{
+    let r = norm_step(st, s, rel);
+    assert forall|i: int| 0 <= i < r.len() implies !is_dot(#[trigger] r[i]) && (is_dotdot(r[i]) ==> rel && (i == 0 || is_dotdot(r[i - 1]))) by {
+        if i < st.len() && i < r.len() { assert(r[i] == st[i]); if i > 0 { assert(r[i - 1] == st[i - 1]); } }
+        else {
+            // the pushed element
+            assert(r =~= st.push(s));
+            if is_dotdot(s) && st.len() > 0 { assert(is_dotdot(st.last())); assert(st[st.len() - 1] == st.last()); }
+        }
+    }
+}
+/// the fold yields a normalized sequence
+pub proof fn lemma_norm_fold_normal(l: Seq<Seq<u8>>, rel: bool)
+    ensures is_normal(norm_fold(l, rel), rel),
+    decreases l.len()
+{
+    if l.len() > 0 {
+        lemma_norm_fold_normal(l.drop_last(), rel);
+        lemma_norm_step_normal(norm_fold(l.drop_last(), rel), l.last(), rel);
+    }
+}
+/// normalizing a normalized sequence changes nothing
+pub proof fn lemma_norm_fold_fix(n: Seq<Seq<u8>>, rel: bool)
+    requires is_normal(n, rel),
+    ensures norm_fold(n, rel) =~= n,
+    decreases n.len()
+{
+    if n.len() > 0 {
+        let m = n.drop_last();
+        assert forall|i: int| 0 <= i < m.len() implies !is_dot(#[trigger] m[i]) && (is_dotdot(m[i]) ==> rel && (i == 0 || is_dotdot(m[i - 1]))) by {
+            assert(m[i] == n[i]); if i > 0 { assert(m[i - 1] == n[i - 1]); }
+        }
+        lemma_norm_fold_fix(m, rel);
+        let s = n.last();
+        assert(s == n[n.len() - 1]);
+        if is_dotdot(s) && m.len() > 0 { assert(m.last() == n[n.len() - 2]); }
+        assert(norm_step(m, s, rel) =~= m.push(s));
+        assert(m.push(s) =~= n);
+    }
+}
+/// a leading "." (the shield) is dropped by the fold
+pub proof fn lemma_norm_fold_dot_front(n: Seq<Seq<u8>>, rel: bool)
+    ensures norm_fold(seq![sq1(46)] + n, rel) =~= norm_fold(n, rel),
+    decreases n.len()
+{
+    let d = seq![sq1(46)];
+    if n.len() == 0 {
+        assert(d + n =~= d);
+        assert(d.drop_last() =~= Seq::<Seq<u8>>::empty());
+        assert(is_dot(d.last()));
+        assert(norm_fold(d, rel) == norm_step(norm_fold(d.drop_last(), rel), d.last(), rel));
+        assert(norm_fold(Seq::<Seq<u8>>::empty(), rel) =~= Seq::<Seq<u8>>::empty());
+    } else {
+        let a = d + n;
+        assert(a.drop_last() =~= d + n.drop_last());
+        assert(a.last() == n.last());
+        lemma_norm_fold_dot_front(n.drop_last(), rel);
+        assert(norm_fold(a, rel) == norm_step(norm_fold(a.drop_last(), rel), a.last(), rel));
+        assert(norm_fold(n, rel) == norm_step(norm_fold(n.drop_last(), rel), n.last(), rel));
+        assert(norm_fold(d + n.drop_last(), rel) == norm_fold(n.drop_last(), rel));
+    }
+}
+/// splitting the '/'-join of slash-free pieces gives the pieces back
+pub proof fn lemma_split_join(l: Seq<Seq<u8>>)
+    requires l.len() > 0, forall|i: int| 0 <= i < l.len() ==> no_slash(#[trigger] l[i]),
+    ensures split_from(join_slash(l), 0) =~= l,
+    decreases l.len()
+{
+    if l.len() == 1 {
+        lemma_split_single(l[0], 0);
+        assert(l[0].subrange(0, l[0].len() as int) =~= l[0]);
+    } else {
+        let m = l.drop_last();
+        assert forall|i: int| 0 <= i < m.len() implies no_slash(#[trigger] m[i]) by { assert(m[i] == l[i]); }
+        lemma_split_join(m);
+        assert(l.last() == l[l.len() - 1]);
+        lemma_split_push(join_slash(m), l.last(), 0);
+        assert(m.push(l.last()) =~= l);
+    }
+}
+/// same from offset k when the text before k is one byte (the leading '/')
+pub proof fn lemma_split_shift(t: Seq<u8>, u: Seq<u8>)
+    requires t =~= sq1(47) + u,
+    ensures split_from(t, 1) =~= split_from(u, 0),
+    decreases u.len()
+{
+    lemma_split_shift_at(t, u, 0);
+}
+proof fn lemma_split_shift_at(t: Seq<u8>, u: Seq<u8>, i: int)
+    requires t =~= sq1(47) + u, 0 <= i <= u.len(),
+    ensures split_from(t, i + 1) =~= split_from(u, i),
+    decreases u.len() - i
+{
+    lemma_first_of_bounds(u, i, C_SLASH);
+    let e = first_of(u, i, C_SLASH);
+    assert forall|j: int| i <= j < e implies !cls(C_SLASH, #[trigger] t[j + 1]) by { assert(t[j + 1] == u[j]); }
+    if e < u.len() {
+        assert(t[e + 1] == u[e]);
+        lemma_first_of_is(t, i + 1, C_SLASH, e + 1);
+        lemma_split_shift_at(t, u, e + 1);
+        assert(t.subrange(i + 1, e + 1) =~= u.subrange(i, e));
+    } else {
+        assert forall|j: int| i + 1 <= j < t.len() implies !cls(C_SLASH, #[trigger] t[j]) by { assert(t[j] == u[j - 1]); }
+        lemma_first_of_none(t, i + 1, C_SLASH);
+        assert(t.subrange(i + 1, t.len() as int) =~= u.subrange(i, u.len() as int));
+    }
+}
+/// the shield sequence in front of the normalized one
+pub open spec fn shield_seq(p: Seq<u8>, fa: bool, at0: bool) -> Seq<Seq<u8>> {
+    if norm_shield(norm_segs(p), p_is_abs(p), fa, at0) { seq![sq1(46)] } else { Seq::empty() }
+}
+/// the one text that stands for two sequences: "/" is the empty path AND (after an authority, where no shield is
+/// written) the rendering of the single empty segment
+pub open spec fn lone_empty_unshielded(p: Seq<u8>, fa: bool, at0: bool) -> bool {
+    norm_segs(p).len() == 1 && norm_segs(p)[0].len() == 0 && !norm_shield(norm_segs(p), p_is_abs(p), fa, at0)
+}
+/// C09, meaning of the exact text: the segments of the in-place normalized path are the normalized sequence, preceded
+/// by a single "." exactly when the shield rule asks for it; the path stays absolute / relative as it was
+pub proof fn lemma_normalize_segs(p: Seq<u8>, fa: bool, at0: bool)
+    requires path_shape(p), !lone_empty_unshielded(p, fa, at0),
+    ensures segs(normalize_text(p, fa, at0)) =~= shield_seq(p, fa, at0) + norm_segs(p),
+        p_is_abs(normalize_text(p, fa, at0)) == p_is_abs(p),
+{
+    let n = norm_segs(p);
+    let t = normalize_text(p, fa, at0);
+    let sh = shield_seq(p, fa, at0);
+    let off = p.subrange(0, p_first_off(p));
+    lemma_segs_shape(p);
+    lemma_norm_fold_shape(segs(p), !p_is_abs(p));
+    if n.len() == 0 {
+        assert(t =~= off);
+    } else {
+        let all = sh + n;
+        assert forall|i: int| 0 <= i < all.len() implies no_slash(#[trigger] all[i]) by {
+            if sh.len() > 0 && i == 0 { assert(all[0] == sq1(46)); }
+            else { assert(all[i] == n[i - sh.len()]); assert(seg_shape(n[i - sh.len()])); }
+        }
+        // t = off + join(all)
+        if sh.len() > 0 { lemma_join_front(sq1(46), n); assert(join_slash(all) =~= sq2(46, 47) + join_slash(n)); }
+        else { assert(all =~= n); }
+        let body = join_slash(all);
+        assert(t =~= off + body);
+        lemma_split_join(all);
+        lemma_join_head(all);
+        if p_is_abs(p) {
+            assert(off =~= sq1(47));
+            lemma_split_shift(t, body);
+            // t is not "/" alone: body is non-empty unless all == [""], which is the excluded case
+            if body.len() == 0 { assert(all.len() == 1 ==> all[0] =~= body); }
+        } else {
+            assert(off =~= sq0());
+            assert(t =~= body);
+        }
+    }
+}
+/// C09: in-place normalisation is idempotent on the text level
+pub proof fn lemma_normalize_idempotent(p: Seq<u8>, fa: bool, at0: bool)
+    requires path_shape(p),
+    ensures normalize_text(normalize_text(p, fa, at0), fa, at0) =~= normalize_text(p, fa, at0),
+{
+    let n = norm_segs(p);
+    let t = normalize_text(p, fa, at0);
+    let rel = !p_is_abs(p);
+    lemma_norm_fold_normal(segs(p), rel);
+    if lone_empty_unshielded(p, fa, at0) {
+        // t == "/" (absolute, after an authority) or t == "" cannot happen (relative empty first segment is shielded)
+        assert(join_slash(n) =~= n[0]);
+        assert(t =~= p.subrange(0, p_first_off(p)));
+    } else {
+        lemma_normalize_segs(p, fa, at0);
+        let sh = shield_seq(p, fa, at0);
+        if sh.len() > 0 { lemma_norm_fold_dot_front(n, rel); } else { assert(sh + n =~= n); }
+        lemma_norm_fold_fix(n, rel);
+        assert(norm_segs(t) =~= n);
+        assert(t.subrange(0, p_first_off(t)) =~= p.subrange(0, p_first_off(p)));
+    }
+}
+} // verus!
